@@ -167,8 +167,9 @@ static sigjmp_buf *vh_assert_jmp;       /* when set, library assert() failures l
 static char vh_assert_msg[512];
 static volatile int vh_in_fatal;
 static int vh_assert_exit_code;       /* when non-zero: a library assert() ends the process quietly with this status (expected-abort cases run in a child) */
-void __assert_fail(const char *expr, const char *file, unsigned int line, const char *func) {
-	snprintf(vh_assert_msg, sizeof vh_assert_msg, "assertion `%s' failed at %s:%u (%s)", expr, file, line, func);
+static void vh_fatal_stop(void) __attribute__((noreturn));
+static void vh_fatal_stop(void) {
+	/* vh_assert_msg holds what happened */
 	if (vh_assert_jmp) { sigjmp_buf *j = vh_assert_jmp; vh_assert_jmp = NULL; siglongjmp(*j, 1); }
 	if (vh_assert_exit_code) _exit(vh_assert_exit_code);
 	if (!vh_in_fatal) {
@@ -179,6 +180,16 @@ void __assert_fail(const char *expr, const char *file, unsigned int line, const 
 	}
 	_exit(76);
 }
+void __assert_fail(const char *expr, const char *file, unsigned int line, const char *func) {
+	snprintf(vh_assert_msg, sizeof vh_assert_msg, "assertion `%s' failed at %s:%u (%s)", expr, file, line, func);
+	vh_fatal_stop();
+}
+/* the library sources are compiled with -Dabort=vh_lib_abort -Dexit=vh_lib_exit: a library that stops the process by abort() or
+ * exit() instead of assert() is treated exactly like a failed assertion ("the process stops"), not as a crash of the harness */
+void vh_lib_abort(void) __attribute__((noreturn));
+void vh_lib_exit(int code) __attribute__((noreturn));
+void vh_lib_abort(void) { snprintf(vh_assert_msg, sizeof vh_assert_msg, "abort() called by the library"); vh_fatal_stop(); }
+void vh_lib_exit(int code) { snprintf(vh_assert_msg, sizeof vh_assert_msg, "exit(%d) called by the library", code); vh_fatal_stop(); }
 static void vh_fatal_signal(int sig) {
 	if (sig == SIGALRM) {
 		static uint64_t last_seq = (uint64_t) -1;
